@@ -18,6 +18,7 @@ import (
 	"math/rand"
 	"reflect"
 	"strings"
+	"unicode"
 
 	mpc "github.com/markkurossi/mpc"
 	"github.com/markkurossi/mpc/circuit"
@@ -463,6 +464,109 @@ func c13Observe(res *Result, ts []ioMember, vals []memberVal, wires []int, varia
 	return events
 }
 
+// c13Strings: string results and arrays of strings / booleans (result.go).  A string of k characters is 8k wires,
+// character i in bits 8i..8i+7 (IOEnc.tla StrWires); printable characters come back as themselves, every other
+// byte as a \uXXXX escape, so the byte sequence is recoverable; decoding is repeatable and leaves its argument alone.
+func c13Strings(out *ndWriter, rng *rand.Rand, base int) {
+	esc := func(bs []byte) string {
+		var sb strings.Builder
+		for _, b := range bs {
+			if unicode.IsPrint(rune(b)) {
+				sb.WriteRune(rune(b))
+			} else {
+				fmt.Fprintf(&sb, "\\u%04x", b)
+			}
+		}
+		return sb.String()
+	}
+	toInt := func(bs []byte) *big.Int {
+		v := new(big.Int)
+		for i := len(bs) - 1; i >= 0; i-- {
+			v.Lsh(v, 8)
+			v.Or(v, big.NewInt(int64(bs[i])))
+		}
+		return v
+	}
+	idx := base
+	for _, k := range []int{0, 1, 7, 8, 9, 16, 17, 40} {
+		for variant := 0; variant < 3; variant++ {
+			bs := make([]byte, k)
+			for i := range bs {
+				switch variant {
+				case 0:
+					bs[i] = byte(0x20 + rng.Intn(0x5f)) // printable ASCII
+				case 1:
+					bs[i] = byte(rng.Intn(256))
+				default:
+					bs[i] = []byte{0, 'a', 0xff, 0x7f, 'Z', 0x80}[rng.Intn(6)]
+				}
+			}
+			res := &Result{Case: idx, Class: "string-result", Nontrivial: k > 8}
+			idx++
+			func() {
+				defer func() {
+					if x := recover(); x != nil {
+						res.viol("panic:Result:string", "Result panics on a string of %d characters: %v", k, x)
+					}
+				}()
+				arg := circuit.IOArg{Name: "s", Type: types.Info{Type: types.TString, IsConcrete: true, Bits: types.Size(8 * k)}}
+				in := toInt(bs)
+				before := new(big.Int).Set(in)
+				r1 := mpc.Result(in, arg)
+				if in.Cmp(before) != 0 {
+					res.viol("result-mutates:t", "Result(string of %d characters) changes its argument", k)
+					in.Set(before)
+				}
+				r2 := mpc.Result(in, arg)
+				s1, ok := r1.(string)
+				if !ok {
+					res.viol("result-type:t", "Result of a string argument returns %T", r1)
+					return
+				}
+				if r2 != r1 {
+					res.viol("result-repeat:t", "Result(string) gives %q and then %q", r1, r2)
+				}
+				if s1 != esc(bs) {
+					res.viol("result-value:t", "Result(string %x) = %q, the wires spell %q", bs, s1, esc(bs))
+				}
+				// an array of strings and an array of booleans
+				n := 3
+				el := types.Info{Type: types.TString, IsConcrete: true, Bits: types.Size(8 * k)}
+				if k > 0 && k <= 9 {
+					all := append(append(append([]byte{}, bs...), bs...), bs...)
+					all[len(all)-1] ^= 1
+					ar := mpc.Result(toInt(all), circuit.IOArg{Name: "a", Type: types.Info{Type: types.TArray, IsConcrete: true, Bits: types.Size(8 * k * n), ArraySize: types.Size(n), ElementType: &el}})
+					ss, ok := ar.([]string)
+					if !ok || len(ss) != n {
+						res.viol("result-type:at", "Result of [3]string returns %T", ar)
+					} else {
+						for i := 0; i < n; i++ {
+							if ss[i] != esc(all[i*k:(i+1)*k]) {
+								res.viol("result-value:at", "Result([3]string) element %d = %q, the wires spell %q", i, ss[i], esc(all[i*k:(i+1)*k]))
+							}
+						}
+					}
+				}
+				bl := types.Info{Type: types.TBool, IsConcrete: true, Bits: 1}
+				nb := k + 1
+				pat := new(big.Int).Rand(rng, new(big.Int).Lsh(big.NewInt(1), uint(nb)))
+				br := mpc.Result(new(big.Int).Set(pat), circuit.IOArg{Name: "b", Type: types.Info{Type: types.TArray, IsConcrete: true, Bits: types.Size(nb), ArraySize: types.Size(nb), ElementType: &bl}})
+				bb, ok := br.([]bool)
+				if !ok || len(bb) != nb {
+					res.viol("result-type:ab", "Result of [%d]bool returns %T", nb, br)
+				} else {
+					for i := 0; i < nb; i++ {
+						if bb[i] != (pat.Bit(i) == 1) {
+							res.viol("result-value:ab", "Result([%d]bool of %v) element %d = %v", nb, pat, i, bb[i])
+						}
+					}
+				}
+			}()
+			out.put(res)
+		}
+	}
+}
+
 func tsNames(ts []ioMember) string {
 	var n []string
 	for _, m := range ts {
@@ -654,6 +758,7 @@ func c13Main(args []string) error {
 		}
 		defer out.close()
 		idx := 0
+		c13Strings(out, rng, 1000000)
 		return readND(args[1], func(raw json.RawMessage) error {
 			var c ioCase
 			if err := json.Unmarshal(raw, &c); err != nil {
